@@ -29,7 +29,7 @@ TRACEBACK_MESSAGE = MessageType(
 TRACEBACK_MESSAGE._serializer.allow_additional_fields = True
 
 
-def _writeTracebackMessage(logger, typ, exception, traceback):
+def _writeTracebackMessage(logger, typ, exception, traceback, extract_fields=True):
     """
     Write a traceback to the log.
 
@@ -38,9 +38,14 @@ def _writeTracebackMessage(logger, typ, exception, traceback):
     @param exception: The L{Exception} instance.
 
     @param traceback: The traceback, a C{str}.
+
+    @param extract_fields: If false, do not run the registered exception
+        extractors on C{exception}. Used when logging the failure of an
+        extractor, which must not trigger extraction again.
     """
     msg = TRACEBACK_MESSAGE(reason=exception, traceback=traceback, exception=typ)
-    msg = msg.bind(**_error_extraction.get_fields_for_exception(logger, exception))
+    if extract_fields:
+        msg = msg.bind(**_error_extraction.get_fields_for_exception(logger, exception))
     msg.write(logger)
 
 
@@ -77,7 +82,7 @@ def _get_traceback_no_io():
 _traceback_no_io = _get_traceback_no_io()
 
 
-def write_traceback(logger=None, exc_info=None):
+def write_traceback(logger=None, exc_info=None, _extract_fields=True):
     """
     Write the latest traceback to the log.
 
@@ -95,7 +100,7 @@ def write_traceback(logger=None, exc_info=None):
         exc_info = sys.exc_info()
     typ, exception, tb = exc_info
     traceback = "".join(_traceback_no_io.format_exception(typ, exception, tb))
-    _writeTracebackMessage(logger, typ, exception, traceback)
+    _writeTracebackMessage(logger, typ, exception, traceback, _extract_fields)
 
 
 def writeFailure(failure, logger=None):
